@@ -36,6 +36,7 @@ TraceNext ==
     \/ Consume("ServiceRx") /\ ServiceRx(Ev.s) /\ Logged
     \/ Consume("ServiceRxOnce") /\ ServiceRxOnce(Ev.s) /\ Logged
     \/ Consume("Cat") /\ Cat /\ Logged
+    \/ Consume("Clear") /\ Clear /\ Logged
     \/ Consume("Connect") /\ Connect(Ev.c, Ev.h) /\ Logged
 
 TraceSpec == TraceInit /\ [][TraceNext]_tvars
